@@ -62,6 +62,13 @@ def proj(pt, p):
     return [x % p, y % p]
 
 
+def operand_class(pt):
+    """inf / generator_object (the Generator instance itself, a Point subclass) / point"""
+    if pt[0] is None:
+        return "inf"
+    return "generator_object" if isinstance(pt, Generator) else "point"
+
+
 def call(f, p):
     try:
         r = f()
@@ -141,7 +148,8 @@ class RegMachine:
         except AssertionError:
             raise
         except Exception as e:
-            return "exc:" + type(e).__name__
+            opnd = R[i] if op == "neg" else R[j] if op == "sub" else None
+            return "exc:" + type(e).__name__ + ("" if opnd is None else "@" + operand_class(opnd))
         pr = proj(r, self.p)
         if isinstance(pr, list):
             if not g.contains_point(*r):
@@ -197,7 +205,7 @@ def backend_of(g):
     return "python"
 
 
-def spawn(job, native, repo, timeout=3000):
+def spawn(job, native, repo, timeout=3000, module="vf.drv.ec"):
     """run `job` (a JSON-able dict, see main) in a fresh interpreter with PYCOIN_NATIVE=native ('' = unset)"""
     env = {k: v for k, v in os.environ.items() if k != "PYCOIN_NATIVE"}
     if native:
@@ -205,7 +213,7 @@ def spawn(job, native, repo, timeout=3000):
     here = os.path.dirname(os.path.dirname(os.path.dirname(os.path.abspath(__file__))))
     env["PYTHONPATH"] = repo + ":" + here
     env["PYTHONHASHSEED"] = "0"
-    return subprocess.Popen([sys.executable, "-m", "vf.drv.ec"], env=env, stdin=subprocess.PIPE,
+    return subprocess.Popen([sys.executable, "-m", module], env=env, stdin=subprocess.PIPE,
                             stdout=subprocess.PIPE, stderr=subprocess.PIPE, text=True)
 
 
